@@ -300,6 +300,36 @@ def main_met():
             if got != want:
                 chk.violation("timeseries step %d ran with %s, the specification says %s" % (i, got, want), sc, klass=dict(klass_met(m), check="driver_params"))
                 break
+    # the same through the parallel driver, whose workers may each see one step only: step i still carries the i-th entries and
+    # the i-th timestamp - or the index i when the forcing has no timestamps
+    from bldfm import run_bldfm_parallel
+
+    par = [e for e in valid if e["nsteps"] >= 2 and e["m"]["ts"] == ABSENT][:2] + [e for e in valid if e["nsteps"] >= 3 and e["m"]["ts"] != ABSENT][:1]
+    for e in par:
+        m = e["m"]
+        raw = {"domain": dict(BASE_DOMAIN, modes=[8, 6], halo=20.0), "towers": [dict(TOWERS[0])], "met": met_dict(m), "solver": {"footprint": True, "precision": "double"}}
+        cfg = parse_config_dict(copy.deepcopy(raw))
+        for strat in ("time", "both"):
+            sc = {"kind": "parallel_series", "m": m, "met": met_dict(m), "strategy": strat}
+            chk.case(json.dumps(sc, sort_keys=True))
+            n_runs += 1
+            try:
+                resp = run_bldfm_parallel(cfg, max_workers=2, parallel_over=strat)[cfg.towers[0].name]
+            except Exception as ex:  # noqa: BLE001
+                chk.violation("run_bldfm_parallel(%s) raised %r for a valid forcing (%s)" % (strat, ex, met_dict(m)), sc, klass=dict(klass_met(m), check="driver_parallel"))
+                continue
+            if len(resp) != e["nsteps"]:
+                chk.violation("run_bldfm_parallel(%s) returned %d results for a forcing with %d steps" % (strat, len(resp), e["nsteps"]), sc, klass=dict(klass_met(m), check="driver_parallel"))
+                continue
+            for i, (rr, want) in enumerate(zip(resp, e["log"])):
+                got = step_tokens(m, rr["params"])
+                want = dict(want)
+                want["ts"] = list(want["ts"])
+                want_label = met_dict(m)["timestamps"][i] if "timestamps" in met_dict(m) else i
+                if got != want or rr["timestamp"] != want_label:
+                    chk.violation("run_bldfm_parallel(%s): step %d carries the label %r and ran with %s, the specification says label %r and %s" % (strat, i, rr["timestamp"], got, want_label, want), sc,
+                                  klass=dict(klass_met(m), check="driver_parallel"))
+                    break
     # series with REPEATED records (a constant list; a value that returns later): every step keeps its own label
     for rep_kw in ({"ustar": [0.3, 0.45, 0.3], "wind_dir": [200.0, 215.0, 200.0], "timestamps": ["a", "b", "c"]}, {"ustar": [0.31, 0.31, 0.31, 0.31]},
                    {"wind_dir": [10.0, 10.0, 350.0, 10.0], "mol": [-50.0, -50.0, -50.0, -50.0], "timestamps": ["2024-01-01T04:00", "2024-01-01T03:00", "2024-01-01T02:00", "2024-01-01T01:00"]}):
